@@ -1,5 +1,6 @@
 pub mod c01;
 pub mod c01srv;
+pub mod c05srv;
 pub mod c02;
 pub mod c03;
 pub mod c03b;
